@@ -701,6 +701,9 @@ def run(ck, fb, tier):
         if cfg == "E" and prog.fn("OUR_strndup") is not None:
             from . import boundsrules as BR
             BR.check_function(K.RuleProxy(ck, {}, default="C01-W"), prog, "C01-W", "OUR_strndup")
+        if cfg == "A" and tier != "thorough":
+            from . import boundsrules as BR
+            BR.check_function(K.RuleProxy(ck, {}, default="C01-W"), prog, "C01-W", "SCPI_ParamCopyText")
         if cfg == "A" and tier == "thorough":
             from . import boundsrules as BR
             for name in ("SCPI_NumberToStr", "SCPI_FloatToStr", "SCPI_DoubleToStr", "SCPI_ParamCopyText",
